@@ -68,6 +68,11 @@ class Interp(object):
 
     # ------------------------------------------------------------------ helpers
     def cache_name(self, t, selfnames):
+        cur0 = getattr(self, '_env', None)
+        if isinstance(t, ast.Subscript) and isinstance(t.value, ast.Name) and cur0 is not None and t.value.id in cur0.get('__cachealias__', ()):
+            # a local name bound to self._cache:  cache = self._cache; cache['k'] = ...
+            t = ast.Subscript(value=ast.Attribute(value=ast.Name(id=next(iter(selfnames)) if selfnames else 'self', ctx=ast.Load()), attr='_cache', ctx=ast.Load()),
+                              slice=t.slice, ctx=t.ctx)
         if isinstance(t, ast.Subscript) and isinstance(t.value, ast.Attribute) and t.value.attr == '_cache' \
                 and isinstance(t.value.value, ast.Name) and t.value.value.id in selfnames:
             if isinstance(t.slice, ast.Constant):
@@ -133,6 +138,13 @@ class Interp(object):
             return v.value
         if isinstance(v, ast.Name) and v.id in env.get('__c__', {}):
             return env['__c__'][v.id]
+        # kwargs.get('key', default) used in place (not through a local): the flag the caller passed, else the default
+        if isinstance(v, ast.Call) and isinstance(v.func, ast.Attribute) and v.func.attr == 'get' and isinstance(v.func.value, ast.Name) \
+                and v.func.value.id == env.get('__kwname__') and v.args and isinstance(v.args[0], ast.Constant):
+            key = v.args[0].value
+            if key in env.get('__kw__', {}):
+                return env['__kw__'][key]
+            return self.const(v.args[1], env) if len(v.args) > 1 else None
         return None
 
     def const_seq(self, e, env):
@@ -432,6 +444,12 @@ class Interp(object):
                         env['__kw__'] = {k_: v_ for k_, v_ in env['__kw__'].items() if k_ != key}
                 elif isinstance(val, ast.Constant):
                     env['__c__'][nm] = val.value
+                # alias of the cache dictionary:  cache = self._cache
+                al = env.setdefault('__cachealias__', set())
+                if isinstance(val, ast.Attribute) and val.attr == '_cache' and isinstance(val.value, ast.Name) and val.value.id in sn:
+                    al.add(nm)
+                else:
+                    al.discard(nm)
                 # alias of self:  geom = obj
                 if isinstance(val, ast.Name) and val.id in sn:
                     sn.add(nm)
